@@ -305,15 +305,22 @@ def size_family(v, work, tier, pool):
             jobs.append((fam, 10 ** 7, False, True, work))
             jobs.append((fam, 10 ** 7, True, False, work))
     walls = {}
-    for fam, size, structured, check, nbytes, panicked, timed_out, sig, ex, wall, err in pool.imap_unordered(_size_job, jobs):
-        v.count()
-        v.distinct(("size", fam, size, structured, check))
-        key = "%s@%d" % (fam, size)
-        walls[key] = max(walls.get(key, 0), round(wall, 2))
-        if panicked or timed_out or sig is not None:
-            v.violation("size:%s:%s" % (fam, "no-termination-within-%ds@%d-bytes" % (size_limit(size), size) if timed_out else "crash"),
-                        {"family": fam, "bytes": nbytes, "mode": "check" if check else "edit", "structured": structured,
-                         "timed_out": timed_out, "signal": sig, "exit": ex, "wall_s": round(wall, 2), "stderr": err.decode("utf-8", "replace")})
+    # two phases: the largest probes (4 MB) only run for shapes whose 1 MB runs ended normally - a shape that already fails at 1 MB is
+    # reported there, without waiting for a second, four times longer time-out
+    big = [j for j in jobs if j[1] > 10 ** 6]
+    failed_fams = set()
+    for phase in ([j for j in jobs if j[1] <= 10 ** 6], big):
+        phase = [j for j in phase if j[0] not in failed_fams]
+        for fam, size, structured, check, nbytes, panicked, timed_out, sig, ex, wall, err in pool.imap_unordered(_size_job, phase):
+            v.count()
+            v.distinct(("size", fam, size, structured, check))
+            key = "%s@%d" % (fam, size)
+            walls[key] = max(walls.get(key, 0), round(wall, 2))
+            if panicked or timed_out or sig is not None:
+                failed_fams.add(fam)
+                v.violation("size:%s:%s" % (fam, "no-termination-within-%ds@%d-bytes" % (size_limit(size), size) if timed_out else "crash"),
+                            {"family": fam, "bytes": nbytes, "mode": "check" if check else "edit", "structured": structured,
+                             "timed_out": timed_out, "signal": sig, "exit": ex, "wall_s": round(wall, 2), "stderr": err.decode("utf-8", "replace")})
     v.coverage["max_wall_s_by_family"] = walls
     v.subspace("size family: 8 ordinary shapes + 6 recursion / rescan probes x sizes %r x style x mode (wall limit 100 s up to 100 kB, 400 s up to 1 MB, 1800 s beyond)" % sizes, len(jobs))
 
